@@ -483,6 +483,14 @@ class Evaluator:
             if fn.attr in self.watch:
                 self.effects.append((fn.attr,) + tuple(freeze(a) for a in args))
                 return None
+            if recv_name in env and type(env[recv_name]) is list and fn.attr in ("append", "insert", "extend"):
+                if fn.attr == "append":
+                    env[recv_name].append(args[0])
+                elif fn.attr == "insert":
+                    env[recv_name].insert(args[0], args[1])
+                else:
+                    env[recv_name].extend(args[0])
+                return None
         cs = self.ctx.r.site_of.get(id(e))
         if cs is not None and cs.targets and cs.kind in ("func", "self", "static", "typed"):
             if len(cs.targets) != 1:
@@ -512,7 +520,10 @@ class Evaluator:
             if len(args) == 1 and not kws:
                 return (fn.id, freeze(args[0]))
             return ("call", fn.id, tuple(freeze(a) for a in args), tuple(sorted((k, freeze(v)) for k, v in kws.items())))
-        if cs is not None and cs.kind in ("ext", "builtin", "ctor", "ctor_noinit", "byname", "unresolved"):
+        if cs is not None and cs.kind in ("ctor", "ctor_noinit"):
+            cname = cs.recv_types.name if cs.kind == "ctor" else cs.recv_types[0].name
+            return ("new", cname, tuple(freeze(a) for a in args), tuple(sorted((k, freeze(v)) for k, v in kws.items())))
+        if cs is not None and cs.kind in ("ext", "builtin", "byname", "unresolved"):
             return Opaque("call")
         raise AnalysisError("call %s not supported by the table extractor (%s)" % (ast.unparse(e)[:40], f.loc(e)))
 
